@@ -41,6 +41,10 @@ use crate::{
 };
 
 mod remote_state;
+#[cfg(iroh_verif)]
+pub(crate) use self::remote_state::verif_path_state;
+#[cfg(iroh_verif)]
+pub(crate) use self::remote_state::verif_hooks as verif_remote_state;
 
 // TODO: use this
 // /// Number of endpoints that are inactive for which we keep info about. This limit is enforced
@@ -237,6 +241,8 @@ impl RemoteMap {
             // the actor shut down cleanly
             self.senders.remove(&remote_id);
             trace!(%remote_id, "cleaned up RemoteStateActor");
+            #[cfg(iroh_verif)]
+            iroh_dns::verif::event("rm.remove", &[("remote", remote_id.to_string())]);
             true
         } else {
             // The remote actor got messages while it was closing, so we're restarting
@@ -246,6 +252,8 @@ impl RemoteMap {
                     .start_remote_state_actor(remote_id, leftover_msgs, &self.mapped_addrs);
             // We don't have to be careful about guards - only one thread is modifying this hashmap at a time.
             self.senders.insert(remote_id, sender);
+            #[cfg(iroh_verif)]
+            iroh_dns::verif::event("rm.restart", &[("remote", remote_id.to_string())]);
             false
         }
     }
@@ -374,6 +382,94 @@ pub(crate) enum Source {
     },
     /// The address was added as a path within a connection.
     Connection,
+}
+
+/// Verification hooks (model-based conformance checks): a real [`RemoteMap`] that a harness
+/// can drive like the socket actor does.  Only compiled with `--cfg iroh_verif`.
+#[cfg(iroh_verif)]
+pub(crate) mod verif_hooks {
+    use n0_watcher::Watchable;
+
+    use super::*;
+    use crate::socket::biased_rtt_path_selector::BiasedRttPathSelector;
+
+    #[derive(Debug)]
+    pub(crate) struct VRemoteMap {
+        map: RemoteMap,
+        watchable: Option<Watchable<BTreeSet<DirectAddr>>>,
+        token: CancellationToken,
+    }
+
+    impl VRemoteMap {
+        pub(crate) fn new(address_lookup: address_lookup::AddressLookupServices) -> Self {
+            let watchable: Watchable<BTreeSet<DirectAddr>> = Watchable::new(BTreeSet::new());
+            let token = CancellationToken::new();
+            let map = RemoteMap::new(
+                Arc::new(SocketMetrics::default()),
+                watchable.watch(),
+                address_lookup,
+                token.clone(),
+                Arc::new(BiasedRttPathSelector::default()),
+                Span::none(),
+            );
+            Self {
+                map,
+                watchable: Some(watchable),
+                token,
+            }
+        }
+
+        /// The socket actor's `ActorMessage::ResolveRemote` path.
+        pub(crate) async fn resolve_remote(
+            &mut self,
+            addr: EndpointAddr,
+        ) -> oneshot::Receiver<Result<(), AddressLookupFailed>> {
+            let (tx, rx) = oneshot::channel();
+            self.map.resolve_remote(addr, tx).await;
+            rx
+        }
+
+        /// One poll of `cleanup()`, like one turn of the socket actor's select loop.
+        pub(crate) fn poll_cleanup(&mut self) -> Option<EndpointId> {
+            n0_future::future::now_or_never(self.map.cleanup())
+        }
+
+        pub(crate) fn on_network_change(&mut self, is_major: bool) {
+            self.map.on_network_change(is_major);
+        }
+
+        /// `Some(closed)` if the sender map has an entry for `id`.
+        pub(crate) fn sender_state(&self, id: &EndpointId) -> Option<bool> {
+            self.map.senders().get(id).map(|s| s.is_closed())
+        }
+
+        /// What other threads do (`Socket::try_send_remote_state_msg`): look the sender up in
+        /// the read-only map and `try_send`.  `Err` says why nothing was sent.
+        pub(crate) fn try_remote_info(
+            &self,
+            id: &EndpointId,
+        ) -> Result<oneshot::Receiver<RemoteInfo>, &'static str> {
+            let Some(sender) = self.map.senders().get(id) else {
+                return Err("no_sender");
+            };
+            let (tx, rx) = oneshot::channel();
+            match sender.try_send(RemoteStateMessage::RemoteInfo(tx)) {
+                Ok(()) => Ok(rx),
+                Err(mpsc::error::TrySendError::Full(_)) => Err("full"),
+                Err(mpsc::error::TrySendError::Closed(_)) => Err("closed"),
+            }
+        }
+
+        /// Cancels the shutdown token handed to every actor.
+        pub(crate) fn cancel(&self) {
+            self.token.cancel();
+        }
+
+        /// Drops the local-direct-address watchable (actors see `Disconnected`).
+        pub(crate) fn drop_watchable(&mut self) {
+            self.watchable.take();
+        }
+    }
 }
 
 #[cfg(test)]
